@@ -102,3 +102,14 @@ Proof.
     apply park_two_col; [exact Hg | exact Hs | reflexivity].
   - unfold g, two_col_traps, ypos, pos_of, rep. cbn [yin ysp]. apply gaps6b_run_from. apply Forall_repeat. exact Hs.
 Qed.
+
+(* the single-zone layouts: any spacing > 0 gives ascending coordinates, which is all the CZ-move theorems ask of the zone *)
+Definition single_col_traps (nx ny : nat) (s : Q) : gridq := mkGQ (rep s nx) (rep s ny) (Some 0%Q) (Some 0%Q).
+Lemma single_col_spec_zone nx ny s :
+  single_col_spec nx ny s = mkArch (mkLayout [("traps"%string, GPlain (single_col_traps nx ny s))] ["traps"%string] ["traps"%string] ["traps"%string] []) [] [].
+Proof. reflexivity. Qed.
+Theorem single_col_layouts_are_ascending nx ny s : (0 < s)%Q ->
+  ascending_q (xpos (single_col_traps nx ny s)) /\ ascending_q (ypos (single_col_traps nx ny s)).
+Proof.
+  intros Hs. apply positive_spacings_give_ascending_coordinates; unfold single_col_traps, rep; cbn [xsp ysp]; apply Forall_repeat; exact Hs.
+Qed.
